@@ -248,7 +248,8 @@ def note_c09(tier):
     progs = ['--xx:nC|nC|iR fR', '--xx:nC|nC|fR', '----:nG|nG|fC', '----:nR|fC', '----:nR|fC|iG', '----:nC|fC', '----:fC|nG', '----:fC|fS|nR', '----:fC|kR|nG',
              '----:fG|nC|iR', '----:fC|iG|nR', '----:nG|nC|fR', '----:fC|wG|nR', '--1-:fC|wG', '-1--:fC|wG|iR', '----:kC|kC|nR', '----:kG|nC|fS', '----:fC fG|nR', '----:fG fC|nR|iS',
              '----:nG|nG|nC', '----:nC|nR|fG', '----:fS|fC|fG', '----:nG|fC|fS|nR', '----:nC|nC|fR|iG', '----:kC|fG|nR|iS',
-             '---x:fR|fC', '---x:fR|fC|iG', '----:fR|fC|fS', '----:fC|fR|nG', '---x:fC|fR|wG', '----:nR|fC|wG', '----:nR|fC|fS', '-1--:fC|wG|iR', '----:fC|nR|nR', '----:fC|fG|nR|fS']
+             '---x:fR|fC', '---x:fR|fC|iG', '----:fR|fC|fS', '----:fC|fR|nG', '---x:fC|fR|wG', '----:nR|fC|wG', '----:nR|fC|fS', '-1--:fC|wG|iR', '----:fC|nR|nR', '----:fC|fG|nR|fS',
+             '----:nR fR|fC|nG', '----:nR fR|fC|fG', '----:nR fR|fC|wG', '---x:nR fR|fC|nG', '----:nC fC|fG|nG', '----:nR fR|fS|fC']
     for p in progs:
         n = p.count('|') + 1
         if tier == 'quick': P = 3 if n == 2 else 2 if n == 3 else 1
